@@ -5,6 +5,9 @@ import (
 	"context"
 	"fmt"
 	"io"
+	v2 "mosn.io/mosn/pkg/config/v2"
+	_ "mosn.io/mosn/pkg/filter/stream/transcoder"
+	_ "mosn.io/mosn/pkg/filter/stream/transcoder/httpconv"
 	"net/http"
 	"sort"
 	"strings"
@@ -195,7 +198,17 @@ func runBatch(rt *rapid.T, b batch) {
 	}
 	u := mesh.NewUpstream(up, script)
 	defer u.Close()
-	c, err := mesh.NewCase(mesh.Opts{Down: down, Up: up, Hosts: []string{u.Addr}, Timeout: routeTimeout})
+	opts := mesh.Opts{Down: down, Up: up, Hosts: []string{u.Addr}, Timeout: routeTimeout}
+	if !isX && down != up {
+		// protocol conversion needs the transcoder stream filter (without it MOSN answers every request 500: the
+		// cross pairings would exercise nothing), configured the way the repository's own protocol-convert cases are
+		typ := "httpTohttp2"
+		if down == "Http2" {
+			typ = "http2Tohttp"
+		}
+		opts.StreamFilters = []v2.Filter{{Type: "transcoder", Config: map[string]interface{}{"type": typ}}}
+	}
+	c, err := mesh.NewCase(opts)
 	if err != nil {
 		rt.Fatalf("rig: %v", err)
 	}
@@ -206,6 +219,18 @@ func runBatch(rt *rapid.T, b batch) {
 	go func() {
 		defer close(relDone)
 		want := len(b.Reqs)
+		if down == "Http1" {
+			// an HTTP/1.1 client connection carries one request at a time: only the first request of every
+			// connection can be at the upstream before anything is released
+			want = 0
+			seenConn := map[int]bool{}
+			for _, r := range b.Reqs {
+				if !seenConn[r.Conn] {
+					seenConn[r.Conn] = true
+					want++
+				}
+			}
+		}
 		deadline := time.After(400 * time.Millisecond)
 		got := 0
 	wait:
@@ -230,6 +255,7 @@ func runBatch(rt *rapid.T, b batch) {
 		byConn[r.Conn] = append(byConn[r.Conn], r)
 	}
 	responded := 0
+	answered := 0 // responses that carry the upstream's own answer for the request (marker + "-resp" in the body), not a reply made up by the proxy
 	var rmu sync.Mutex
 	var wg sync.WaitGroup
 	clientDeadline := routeTimeout + 2500*time.Millisecond
@@ -298,6 +324,9 @@ func runBatch(rt *rapid.T, b batch) {
 					}
 					if len(toks) > 0 {
 						rmu.Lock()
+						if bytes.Contains(f, []byte(mesh.Wrap(r.Token)+"-resp")) {
+							answered++
+						}
 						responded++
 						rmu.Unlock()
 					}
@@ -336,6 +365,9 @@ func runBatch(rt *rapid.T, b batch) {
 					checkHTTP(bad, o, b.Pair, ci, r, resp.Header.Get(mesh.TokenHeader), resp.Body)
 					if resp.Header.Get(mesh.TokenHeader) != "" {
 						rmu.Lock()
+						if bytes.Contains(resp.Body, []byte(mesh.Wrap(r.Token)+"-resp")) {
+							answered++
+						}
 						responded++
 						rmu.Unlock()
 					}
@@ -382,6 +414,9 @@ func runBatch(rt *rapid.T, b batch) {
 					checkHTTP(bad, o, b.Pair, ci, r, resp.Header.Get(mesh.TokenHeader), body)
 					if resp.Header.Get(mesh.TokenHeader) != "" {
 						rmu.Lock()
+						if bytes.Contains(body, []byte(mesh.Wrap(r.Token)+"-resp")) {
+							answered++
+						}
 						responded++
 						rmu.Unlock()
 					}
@@ -424,6 +459,12 @@ func runBatch(rt *rapid.T, b batch) {
 	}
 	if responded > 0 {
 		classes = append(classes, "got-upstream-responses")
+	}
+	if faults == 0 && b.DropConn < 0 && answered == len(b.Reqs) {
+		// the check is only worth something if correlation really happens: in a batch without faults every request is
+		// answered with its own upstream response (coverage floor in parts.json; a proxy that answers nothing would
+		// otherwise pass for lack of responses to mix up)
+		classes = append(classes, "fault-free-batch-fully-answered", "fault-free-batch-fully-answered:"+b.Pair)
 	}
 	for _, r := range b.Reqs {
 		if r.Script == "late" {
